@@ -258,7 +258,8 @@ func (api schema) identity(i *meta.Identity) node.Node {
 		OnField: func(p node.Node, r node.FieldRequest, hnd *node.ValueHandle) error {
 			switch r.Meta.Ident() {
 			case "baseIds":
-				hnd.Val = val.StringList(i.BaseIds())
+				// a copy: what is handed out ends up in the caller's data
+				hnd.Val = val.StringList(append([]string{}, i.BaseIds()...))
 			case "derivedIds":
 				derived := make([]string, len(i.DerivedDirect()))
 				for i, id := range i.DerivedDirect() {
@@ -373,7 +374,7 @@ func (api schema) uniques(uniques [][]string, row int) node.Node {
 		OnField: func(r node.FieldRequest, hnd *node.ValueHandle) (err error) {
 			switch r.Meta.Ident() {
 			case "leafs":
-				hnd.Val = val.StringList(uniques[row])
+				hnd.Val = val.StringList(append([]string{}, uniques[row]...))
 			}
 			return nil
 		},
